@@ -1,5 +1,6 @@
 import Chewing.Proofs.Loader
 import Chewing.Proofs.UhashRoundtrip
+import Chewing.Proofs.UhashBin
 /-!
 # C19 — Legacy user data is migrated completely, exactly once, and never destroyed
 
@@ -10,7 +11,7 @@ closing it stores this map in `chewing.dat` and re-opening yields it back is C10
 (observed on every correspondence record here).
 
 * "every valid record of the legacy store is present … with the same phrase, syllables and user
-  frequency": `bin_reader_complete` (the binary encoding of ANY store of valid records, with deleted
+  frequency": `bin_reader_complete`, `migrate_bin_complete` (the binary encoding of ANY store of valid records, with deleted
   and negative records interspersed and any lifetime, reads back exactly its live records) and
   `migrate_complete` (every record the reader yields is in the new dictionary under its key with
   its frequency and time); `migrate_exact` (nothing else is).
@@ -128,10 +129,24 @@ theorem learn_then_restart_keeps_both (feat : Bool) (d : UserDir) (m : UMap) (k 
 
 /-! ## The readers accept what the legacy engine wrote -/
 
-/-- `bin_reader_complete` (statement; see the named gaps below) -/
-def BinReaderComplete : Prop :=
-  ∀ (lifetime : List Nat) (rs : List GRec), lifetime.length = 4 → (∀ g ∈ rs, g.Valid) →
-    loadUhash (encodeBin lifetime rs) = .ok (.ok (liveRecs rs))
+/-- `bin_reader_complete`: the binary reader reads back exactly the live records of ANY store of
+    valid records (1..11 non-zero syllables, non-empty UTF-8 phrase that fits the record, 32-bit
+    fields), removed and negative records interspersed, any lifetime (`Proofs/UhashBin.lean`) -/
+theorem bin_reader_complete (lifetime : List Nat) (hl : lifetime.length = 4) (rs : List GRec)
+    (hv : ∀ g ∈ rs, g.Valid) : loadUhash (encodeBin lifetime rs) = .ok (.ok (liveRecs rs)) :=
+  loadUhash_encodeBin lifetime hl rs hv
+
+/-- the whole first start over a binary legacy store: the legacy file is untouched, the new
+    dictionary is stored, every live record is in it with its frequency and time, and nothing else -/
+theorem migrate_bin_complete (lifetime : List Nat) (hl : lifetime.length = 4) (rs : List GRec)
+    (hv : ∀ g ∈ rs, g.Valid) (hd : (liveRecs rs).Pairwise (fun a b => keyOf a ≠ keyOf b)) :
+    ∃ l, load false { chewingDat := none, uhashDat := some (encodeBin lifetime rs), sqlite := none } = .ok l ∧
+      l.dir.uhashDat = some (encodeBin lifetime rs) ∧
+      ∃ m, l.dict = .ok m ∧ l.dir.chewingDat = some (.valid m) ∧
+        (∀ r ∈ liveRecs rs, find? m (keyOf r) = some (valOf r)) ∧
+        (∀ e ∈ m, ∃ r ∈ liveRecs rs, e = (keyOf r, valOf r)) :=
+  ⟨_, first_start false none (Or.inl rfl) (bin_reader_complete lifetime hl rs hv), rfl, _, rfl, rfl,
+    migrate_complete hd, migrate_exact _⟩
 
 /-- F26 repaired: the header line of a text store may hold any non-negative 63-bit lifetime -/
 theorem lifetime_any (ds : List Nat) (hne : ds ≠ []) (hd : ∀ d ∈ ds, isDigit d = true)
@@ -187,5 +202,10 @@ theorem sqlite_rows_imported (d : UserDir) (rows : List Uhash.Rec) (hd : d.chewi
 
 example : (⟨[10268, 8708], [0xE7, 0xAD, 0x96, 0xE8, 0xA9, 0xA6], [9, 7, 9, 1], false⟩ : GRec).Valid := by
   decide
+
+/-- a two-record store (one live, one removed) and its first start -/
+example : liveRecs [⟨[10268, 8708], [0xE7, 0xAD, 0x96, 0xE8, 0xA9, 0xA6], [9, 7, 9, 1], false⟩,
+    ⟨[10268], [0xE7, 0xAD, 0x96], [3, 4, 3, 0], true⟩] =
+    [{ syls := [10268, 8708], phrase := [0xE7, 0xAD, 0x96, 0xE8, 0xA9, 0xA6], freq := 9, time := 7 }] := by decide
 
 end Chewing.C19
